@@ -40,7 +40,7 @@ def ob_inductive(run, interp):
     from rpyc.core.protocol import Connection
     from rpyc.core import consts, netref
     from rpyc.lib import get_id_pack
-    TRANS = ["box-again", "unbox", "proxy-finalizer", "release-handled", "reply-dropped-unread"]
+    TRANS = ["box-again", "unbox", "proxy-finalizer", "release-handled", "reply-dropped-unread", "box-twice-in-one-tuple"]
 
     def ob(o):
         o.symbolic = ["owner's count c: Int >= 0; slot present?: Bool", "proxy alive?: Bool; proxy's count p: Int >= 1",
@@ -75,6 +75,9 @@ def ob_inductive(run, interp):
             c.notes.update(owner=owner, peer=peer, obj=obj, idp=idp, slot=slot, cnt=cnt, alive=alive, p=p, r=r, dels=dels, tr=tr, proxy=proxy)
             if tr == "box-again":
                 out = interp.call(Connection._box, (owner, obj))
+            elif tr == "box-twice-in-one-tuple":
+                # f(x, x): two references go in flight with one message
+                out = interp.call(Connection._box, (owner, (obj, 5, obj)))
             elif tr == "unbox":
                 c.assume(r >= 1)
                 out = interp.call(Connection._unbox, (peer, (consts.LABEL_REMOTE_REF, idp)))
@@ -131,6 +134,11 @@ def ob_inductive(run, interp):
                     r2 = r + 1
                     if r_.value[0] != 4 or tuple(r_.value[1]) != tuple(idp):
                         bad = "_box did not produce a reference to the object"
+                elif tr == "box-twice-in-one-tuple":
+                    refs = [x for x in r_.value[1] if type(x) is tuple and x[0] == consts.LABEL_REMOTE_REF and tuple(x[1]) == tuple(idp)] if r_.value[0] == consts.LABEL_TUPLE else []
+                    r2 = r + len(refs)             # every occurrence on the wire is a reference the peer will count
+                    if len(refs) != 2:
+                        bad = "_box of (x, 5, x) produced %d references to x" % len(refs)
                 elif tr == "unbox":
                     r2 = r - 1
                     px = r_.value
@@ -186,6 +194,10 @@ def ob_inductive(run, interp):
                     run.replay(o, sig, bad, HISTORY_RUNNER + REPLAY_DROPPED)
                     l2.retire(owner, peer)
                     return
+                if tr == "box-twice-in-one-tuple":
+                    run.replay(o, sig, bad, HISTORY_RUNNER + REPLAY_TWICE)
+                    l2.retire(owner, peer)
+                    return
                 run.replay(o, sig, bad, HISTORY_RUNNER + '''
 bad = []
 for h in all_histories(6):
@@ -214,6 +226,30 @@ if bad:
             raise core.HarnessError("the invariant does not imply an empty table at quiescence")
         o.detail = "invariant + quiescence => no table entry: unsat(neg)"
     return ob
+
+
+REPLAY_TWICE = '''
+# f(x, x): the same object twice in one message, then the release notice for both crosses a fresh reference
+ca, cb = QChan(), QChan()
+A = Connection(VoidService(), ca); B = Connection(VoidService(), cb)
+obj = Lent()
+idp = rpyc.lib.get_id_pack(obj)
+bad = []
+got = B._unbox(A._box((obj, 5, obj)))            # one proxy, counted twice by the peer
+if got[0] is not got[2]: bad.append("two proxies for one object")
+count_owner = A._local_objects._dict[idp][1]
+count_proxy = object.__getattribute__(got[0], "____refcount__")
+if count_owner != count_proxy: bad.append("owner counts %r references, the peer's proxy counts %r" % (count_owner, count_proxy))
+del got; gc.collect()                               # the peer drops it: a release notice for the proxy's whole count goes out
+fresh = B._unbox(A._box(obj))                       # meanwhile the owner lends it again and the peer unboxes it
+while cb.q:
+    A._dispatch(cb.q.pop(0)[1])                     # now the owner processes the release notice
+if idp not in A._local_objects._dict:
+    bad.append("the peer holds a live proxy, yet the owner has released the object")
+print(bad)
+if bad:
+    print("REPRODUCED"); sys.exit(1)
+'''
 
 
 REPLAY_DROPPED = '''
